@@ -294,3 +294,18 @@ add("C12",
     shards={"quick": 16, "thorough": 16},
     require_counts=["copy_cases", "merge_cases", "rewrite_cases", "repair_cases", "repaired_marked_entries", "copy_into_nonempty_wrote_packs"],
     )
+
+add("C01",
+    engine="ENUM",
+    level="exploration",
+    technique="bounded exhaustive enumeration of source tree shapes, names, configuration x content grids and metadata through an in-memory source seam, read back through every read path",
+    design_ref="DESIGN.md §4.5, §5 C01",
+    level_text="Slices, each enumerated completely: S1 every tree with <=4 (quick) / <=5 (thorough) nodes over {dir, file, symlink} and names a,b,c; S2 one file under every legal single-byte name (253), every pair over a hostile set "
+               "(backslash, quote, newline, 0x80, 0xff, e-acute, space, dot) and long/unicode/escape-like/invalid-UTF-8 names; S3 the configuration grid {repo v1, v2} x compression {unset, 0, -7, (1, 22)} x seven chunkers (rabin default, 4096/4096/16384, 64/64/256; fixed 1, 2, 4096, 8000) x three pack sizes, "
+               "each with files whose lengths sit on the chunker's min/avg/max boundaries under four fills and a file byte-identical to a sibling directory's tree; S4 symlink targets (relative, absolute, dangling, non-UTF-8, 1000 bytes), hardlink pair and triple, nesting depth 1..40, 100 files in one directory, "
+               "modes incl. setuid/setgid/sticky, mtimes 0, 1 ns, 2200, negative. For every case the real backup is read back by ls+dump, by an independent decoder, by read_file_at over a grid of offsets/lengths around blob boundaries, check --read-data must be clean, "
+               "and the snapshot is restored into an empty tmpfs directory and compared by lstat (type, bytes, link target, mode, mtime ns, shared inodes).",
+    level_note="Metadata comes from the in-memory source seam (the file-system walker of the source side is not exercised); file sizes are bounded by 3*max+17 bytes of the tiny chunkers / 27 KiB.",
+    shards={"quick": 16, "thorough": 16},
+    require_counts=["cases:S1", "cases:S2", "cases:S3", "cases:S4"],
+    )
